@@ -1,5 +1,6 @@
 import ZvbiModel.Export.Model
 import ZvbiModel.Export.Page
+import ZvbiModel.Export.Text
 /-!
 # Spec for C16: what the user relies on
 
@@ -23,13 +24,14 @@ def opBytes : Op → Bytes
 /-- the exported data -/
 def output (ops : List Op) : Bytes := ops.flatMap opBytes
 
-/-- bytes of one character when there is room: the conversion of the character, or of a space when
-    the character is not representable (or comes out as '@', the heuristic of print_unicode) -/
-def encUnbounded (cfg : Cfg) (conv : Nat → Option Bytes) (c : Cell) : Option Bytes :=
-  let u := effUnicode c
+/-- bytes of one character (UCS-2 code `u`) when there is room: the conversion of the character, or of a
+    space when the character is not representable (or comes out as '@', the heuristic of print_unicode) -/
+def encU (cfg : Cfg) (conv : Nat → Option Bytes) (u : Nat) : Option Bytes :=
   match conv u with
   | some bs => if atSign cfg bs u then conv 0x20 else some bs
   | none => conv 0x20
+
+def encUnbounded (cfg : Cfg) (conv : Nat → Option Bytes) (c : Cell) : Option Bytes := encU cfg conv (effUnicode c)
 
 /-- side condition of exactness once E2BIG is an error (F27a repaired): an encoding that is taken for '@'
     (and replaced by a space) is not longer than the space.  True for all fixed-width encodings and UTF-8;
@@ -50,6 +52,52 @@ def tableText (cfg : Cfg) (conv : Nat → Option Bytes) : List (List Cell) → O
   | [r] => rowText cfg conv r
   | r :: rs =>
     match rowText cfg conv r, tableText cfg conv rs with
+    | some a, some b => some (a ++ [0x0A] ++ b)
+    | _, _ => none
+
+/-! ### text export module -/
+
+/-- one row of the text export without terminal codes: every cell's character (not printable: graphics ->
+    `gfx`, anything else -> space), converted, then a line feed -/
+def plainRow (cfg : Cfg) (conv : Nat → Option Bytes) (gfx : Nat) : List Cell → Option Bytes
+  | [] => some [0x0A]
+  | c :: cs =>
+    match encU cfg conv (substChar gfx c.unicode), plainRow cfg conv gfx cs with
+    | some a, some b => some (a ++ b)
+    | _, _ => none
+
+/-- the exported text of a page, `control=0` -/
+def plainText (cfg : Cfg) (conv : Nat → Option Bytes) (gfx : Nat) : List (List Cell) → Option Bytes
+  | [] => some []
+  | r :: rs =>
+    match plainRow cfg conv gfx r, plainText cfg conv gfx rs with
+    | some a, some b => some (a ++ b)
+    | _, _ => none
+
+/-- the converter is usable for the text module: what it produces are bytes, at least one and at most `n`
+    per character (n = 32 without, 11 with terminal codes: `sizeof (text->buf)` minus the longest control
+    sequence).  Holds for all fixed-width encodings and UTF-8. -/
+def ConvFits (cfg : Cfg) (conv : Nat → Option Bytes) (n : Nat) : Prop :=
+  ∀ u bs, encU cfg conv u = some bs → 0 < bs.length ∧ bs.length ≤ n ∧ ∀ b ∈ bs, b < 256
+
+/-- terminal mode: a row is the concatenation of control sequence + character of every cell that is not
+    skipped (`old` = previous cell of the page in row-major order) -/
+def ctlRow (cfg : Cfg) (conv : Nat → Option Bytes) (term gfx : Nat) (cm : List Nat) : Cell → List Cell → Option Bytes
+  | _, [] => some []
+  | old, c :: cs =>
+    match ctlSeq term cm old c, ctlRow cfg conv term gfx cm c cs with
+    | .ok none, some b => some b
+    | .ok (some ctl), some b => (encU cfg conv (substChar gfx c.unicode)).map (fun a => ctl ++ a ++ b)
+    | _, _ => none
+
+def lastCell (old : Cell) (r : List Cell) : Cell := r.getLast?.getD old
+
+/-- the exported text of a page, `control=1/2`: rows separated by '\n', closed by ESC [ m '\n' -/
+def ctlText (cfg : Cfg) (conv : Nat → Option Bytes) (term gfx : Nat) (cm : List Nat) : Cell → List (List Cell) → Option Bytes
+  | _, [] => some []
+  | old, [r] => (ctlRow cfg conv term gfx cm old r).map (· ++ [esc, 0x5B, 0x6D, 0x0A])
+  | old, r :: rs =>
+    match ctlRow cfg conv term gfx cm old r, ctlText cfg conv term gfx cm (lastCell old r) rs with
     | some a, some b => some (a ++ [0x0A] ++ b)
     | _, _ => none
 
@@ -77,12 +125,19 @@ def finalAt (runs : List Run) (a : Nat) : Option (Nat × Nat × Nat × Nat × Na
   (runs.reverse.find? (fun r => decide (r.start ≤ a) && decide (a < r.start + r.len))).map
     fun r => (r.cell, r.dy, r.kind, r.size, a - r.start)
 
+/-- the pixel (byte) value actually stored: a function `glyph` of the source character (its bitmap, pen colours,
+    DRCS data ... are all functions of the `vbi_char` and of page-wide data), what was drawn (kind, size), the
+    line in the cell and the byte in the run.  `glyph` is a parameter: equality below is about placement and
+    which character is drawn where, not about fonts. -/
+def renderedAt (glyph : Cell → Nat → Nat → Nat → Nat → Nat) (pg : Page) (runs : List Run) (a : Nat) : Option Nat :=
+  (finalAt runs a).map fun v => glyph (pg.text.getD v.1 default) v.2.2.1 v.2.2.2.1 v.2.1 v.2.2.2.2
+
 /-- the region does not cut an enlarged character: no OVER_TOP / OVER_BOTTOM cell in its first column and no
     wide character in its last column -/
 def NotCut (cells : List (List (Nat × Cell))) : Prop :=
   NoWideLast cells ∧ ∀ r ∈ cells, ∀ ic, r.head? = some ic → isOver ic.2.size = false
 
-/-- full statement of region_equals_full (NOT proved; the oracle compares the pixels on the real code):
+/-- full statement of region_equals_full (proved for every configuration with the F14 repair, `region_equals_full_repaired`):
     on every byte of the region rectangle the region rendering leaves the same (symbolic) value as the
     full-page rendering leaves at the corresponding place -/
 def region_equals_full_stmt (cfg : Cfg) : Prop :=
